@@ -211,6 +211,14 @@ def hostile(rng, S):
             ('fork-under-box:flip:3', ((op(P, C), op(P, op('Conjunction', op(N, neg(C)), op('Disjunction', B, op(P, A)))), op(N, op(N, neg(A)))), syn.atom(3))),
             ('several-leafworlds', ((op(P, A), op(P, B), op(P, C), op(N, op('Disjunction', A, op('Disjunction', B, C)))), op(N, A))),
         ]
+        # truth-functional connectives decomposed at world 0 while other worlds hold clashing literals (a rule that
+        # drops the world of its node lets them meet)
+        for o in ('Biconditional', 'MaterialBiconditional', 'Conditional', 'MaterialConditional', 'Conjunction', 'Disjunction'):
+            out += [
+                (f'modal-ctx:{o}:neg', ((op(P, op('Conjunction', A, B)), op(P, neg(A))), neg(op(o, A, B)))),
+                (f'modal-ctx:{o}:pos', ((op(P, op('Conjunction', A, neg(B))), op(P, op('Conjunction', neg(A), B))), op(o, A, B))),
+                (f'modal-ctx:{o}:prem', ((op(o, A, B), op(P, neg(A)), op(P, neg(B))), op('Disjunction', A, B))),
+            ]
         # proofs that run up to the projected world limit: a necessarily-possibly multiplier, k extra possibility
         # premises, and an obligation j levels deep
         lem = op('Disjunction', C, neg(C))
